@@ -18,6 +18,7 @@ import (
 	"net/http/httptest"
 	"net/url"
 	"os"
+	"sort"
 	"strings"
 	"time"
 
@@ -36,11 +37,23 @@ const (
 	readKey  = "rkey-secret-2"
 	otherKey = "some-other-key"
 	cookie   = 0x637037d6
+	cookie2  = 0x11223344 // needle 5 of volume 3: a request naming it with `cookie` meets a cookie mismatch
+	cookieX  = 0x7037d6ab // needle 0x0163 of volume 3: the file id "01637037d6ab" extends the text of needle 1's
 	remoteIP = "192.0.2.1" // httptest.NewRequest RemoteAddr
 )
 
-var dataA = []byte("needle-one-content-AAAA")
-var dataB = []byte("needle-two-content-BBBB")
+// the stored needles: volume 3 (keys 1, 2 with one cookie, 5 and 0x163 with others) and volume 0
+// (key 1; DeleteHandler falls back to volume 0 when the volume id does not parse: finding 0)
+type slot struct{ vol, id uint64 }
+
+var seedNeedles = []struct {
+	s  slot
+	ck uint32
+}{{slot{3, 1}, cookie}, {slot{3, 2}, cookie}, {slot{3, 5}, cookie2}, {slot{3, 0x163}, cookieX}, {slot{0, 1}, cookie}}
+
+func seedData(s slot) []byte {
+	return []byte(fmt.Sprintf("needle-content-vol%d-key%x-%s", s.vol, s.id, strings.Repeat(string(rune('A'+s.id%26)), 8)))
+}
 
 type tokFacts struct {
 	wellformed          bool
@@ -48,6 +61,7 @@ type tokFacts struct {
 	signedWith          string
 	expOK, nbfOK, iatOK bool
 	fid                 string
+	// expOK, nbfOK, iatOK are evaluated at the fixed instant the harness gives the library (jwt.TimeFunc)
 }
 
 type tk struct {
@@ -75,10 +89,12 @@ func newWorld() *world {
 	s := storage.NewStore(nil, 0, "localhost", "localhost", []string{dir}, []int{100},
 		[]util.MinFreeSpace{{Type: util.AsPercent, Percent: 0}}, "", storage.NeedleMapInMemory, []types.DiskType{types.HardDriveType})
 	hx.Must(s.AddVolume(3, "", storage.NeedleMapInMemory, "000", "", 0, 0, types.HardDriveType))
-	for i, d := range [][]byte{dataA, dataB} {
-		n := &needle.Needle{Id: types.NeedleId(i + 1), Cookie: types.Cookie(cookie), Data: d}
+	hx.Must(s.AddVolume(0, "", storage.NeedleMapInMemory, "000", "", 0, 0, types.HardDriveType))
+	for _, sn := range seedNeedles {
+		d := seedData(sn.s)
+		n := &needle.Needle{Id: types.NeedleId(sn.s.id), Cookie: types.Cookie(sn.ck), Data: d}
 		n.Checksum = needle.NewCRC(d)
-		_, err := s.WriteVolumeNeedle(3, n, false)
+		_, err := s.WriteVolumeNeedle(needle.VolumeId(sn.s.vol), n, false)
 		hx.Must(err)
 	}
 	return &world{dir: dir, store: s, vs: map[string]*weed_server.VolumeServer{}}
@@ -105,10 +121,43 @@ func (w *world) server(c cfg) *weed_server.VolumeServer {
 	return v
 }
 
-func (w *world) snapshot() string {
-	v := w.store.GetVolume(3)
+func (w *world) snapshot(vol uint32) string {
+	v := w.store.GetVolume(needle.VolumeId(vol))
 	dat, idx, _ := v.FileStat()
 	return fmt.Sprintf("%d/%d/%d/%d", dat, idx, v.FileCount(), v.DeletedCount())
+}
+
+// state of one needle slot, read back from the real store (the cookie is the stored one)
+type nstate struct {
+	live    bool
+	ck      uint32
+	content int // 1 = the data stored at set-up, 2 = the payload of the current request, 3 = anything else
+	data    []byte
+	etag    string
+}
+
+func (w *world) probe(s slot, payload []byte) nstate {
+	n := &needle.Needle{Id: types.NeedleId(s.id)}
+	if _, err := w.store.ReadVolumeNeedle(needle.VolumeId(s.vol), n, nil); err != nil {
+		return nstate{}
+	}
+	c := 3
+	if bytes.Equal(n.Data, seedData(s)) {
+		c = 1
+	} else if payload != nil && bytes.Equal(n.Data, payload) {
+		c = 2
+	}
+	return nstate{live: true, ck: uint32(n.Cookie), content: c, data: n.Data, etag: n.Etag()}
+}
+
+func coqLive(slots []slot, st map[slot]nstate) string {
+	var l []string
+	for _, s := range slots {
+		if x := st[s]; x.live {
+			l = append(l, fmt.Sprintf("{| n_vol := %s; n_id := %s; n_ck := %s; n_content := %d |}", hx.N(s.vol), hx.N(s.id), hx.N(uint64(x.ck)), x.content))
+		}
+	}
+	return hx.List(l)
 }
 
 func b64(v interface{}) string {
@@ -117,25 +166,26 @@ func b64(v interface{}) string {
 	return base64.RawURLEncoding.EncodeToString(b)
 }
 
-func coqTok(f tokFacts, namesTarget bool) string {
-	return fmt.Sprintf("{| t_wellformed := %s; t_alg := %s; t_signed_with := %s; t_exp_ok := %s; t_nbf_ok := %s; t_iat_ok := %s; t_fid := %s; t_names_target := %s |}",
-		hx.Bool(f.wellformed), f.alg, hx.Str(f.signedWith), hx.Bool(f.expOK), hx.Bool(f.nbfOK), hx.Bool(f.iatOK), hx.Str(f.fid), hx.Bool(namesTarget))
+// the real file id parser on the claim text
+func claimDen(claim string) (vol, key uint64, ck uint32, ok bool) {
+	f, err := needle.ParseFileIdFromString(claim)
+	if err != nil {
+		return 0, 0, 0, false
+	}
+	return uint64(f.VolumeId), uint64(f.Key), uint32(f.Cookie), true
 }
 
-// baseOf parses (vid, fid) into volume/key/cookie ignoring a _delta suffix.
-func baseOf(vid, fid string) (string, bool) {
-	v, e := needle.NewVolumeId(vid)
-	if e != nil {
-		return "", false
+func coqTok(f tokFacts, namesTarget bool) string {
+	den := "None"
+	if v, k, c, ok := claimDen(f.fid); ok {
+		den = fmt.Sprintf("(Some (%s, %s, %s))", hx.N(v), hx.N(k), hx.N(uint64(c)))
 	}
-	if i := strings.LastIndex(fid, "_"); i > 0 {
-		fid = fid[:i]
-	}
-	k, c, e := needle.ParseNeedleIdCookie(fid)
-	if e != nil {
-		return "", false
-	}
-	return fmt.Sprintf("%d/%d/%d", uint32(v), uint64(k), uint32(c)), true
+	return fmt.Sprintf("{| t_wellformed := %s; t_alg := %s; t_signed_with := %s; t_exp_ok := %s; t_nbf_ok := %s; t_iat_ok := %s; t_fid := %s; t_den := %s; t_names_target := %s |}",
+		hx.Bool(f.wellformed), f.alg, hx.Str(f.signedWith), hx.Bool(f.expOK), hx.Bool(f.nbfOK), hx.Bool(f.iatOK), hx.Str(f.fid), den, hx.Bool(namesTarget))
+}
+
+func coqSt(n *needle.Needle, err error) string {
+	return fmt.Sprintf("((%s, %s), %s)", hx.N(uint64(n.Id)), hx.N(uint64(n.Cookie)), hx.Bool(err == nil))
 }
 
 // the real parseURLPath, with its panics caught
@@ -177,6 +227,7 @@ type request struct {
 	toks    []tk
 	q       url.Values
 	auth    string
+	auth2   string // a second Authorization header (net/http hands out the first)
 	carrier string
 }
 
@@ -190,6 +241,9 @@ func main() {
 	w := newWorld()
 	defer func() { w.close() }()
 	now := time.Now().Unix()
+	// the library's clock hook: every token is judged at the instant `now`, so exp/nbf/iat exactly at,
+	// one second before and one second after that instant are deterministic
+	jwt.TimeFunc = func() time.Time { return time.Unix(now, 0) }
 
 	mkHS := func(m *jwt.SigningMethodHMAC, key, claimFid string, exp, nbf, iat int64) (string, tokFacts) {
 		cl := security.SeaweedFileIdClaims{Fid: claimFid, StandardClaims: jwt.StandardClaims{ExpiresAt: exp, NotBefore: nbf, IssuedAt: iat}}
@@ -210,32 +264,58 @@ func main() {
 		ufid, ufidOK := uploadFid(path)
 		un := new(needle.Needle)
 		ufidErr := un.ParsePath(ufid)
-		if !pathOK {
-			vidErr, fidErr = fmt.Errorf("panic"), fmt.Errorf("panic")
-		}
-		if !ufidOK {
-			ufidErr = fmt.Errorf("panic")
-		}
-		// the needle the store operation addresses
-		addrNeedle, addrErr := pn, fidErr
-		if isUpload {
-			addrNeedle, addrErr = un, ufidErr
-		}
-		target := "TMissing"
-		if vidErr != nil || uint32(volId) != 3 {
-			target = "TNoVolume"
-		} else if (addrErr == nil || (method == "DELETE" && pathOK)) && // DeleteHandler ignores the ParsePath error and uses what was parsed
-			(addrNeedle.Id == 1 || addrNeedle.Id == 2) && uint32(addrNeedle.Cookie) == cookie {
-			target = "TExists"
-		}
-		// t_names_target refers to the file id the request names (parseURLPath's fid, whose
-		// "_n" sub-files a token for the base id opens by design); that the store operation of an
-		// upload addresses the very same needle is the separate bit rq_same_needle
-		addrBase := fid
+		fidBase := fid
 		if j := strings.LastIndex(fid, "_"); j > 0 {
-			addrBase = fid[:j]
+			fidBase = fid[:j]
 		}
-		reqBase, reqBaseOK := baseOf(vid, fid)
+		_, _, baseErr := needle.ParseNeedleIdCookie(fidBase)
+		// the needle the store operation addresses, by the real parsers (for the oracle bit t_names_target):
+		// an upload writes the needle CreateNeedleFromRequest builds from its own reading of the path;
+		// DeleteHandler uses what ParsePath left in the needle (a bad _delta leaves the base's id and cookie)
+		var addr *needle.Needle
+		if pathOK && vidErr == nil {
+			switch {
+			case isUpload:
+				if ufidOK && ufidErr == nil {
+					addr = un
+				}
+			case method == "DELETE":
+				if baseErr == nil {
+					addr = pn
+				}
+			default:
+				if fidErr == nil {
+					addr = pn
+				}
+			}
+		}
+		hasSuffix := strings.Contains(path, "_")
+
+		// tracked needle slots: the stored ones, some empty ones, whatever the parsers read from this
+		// request and whatever the claims denote, in both volumes
+		slotSet := map[slot]bool{{3, 9}: true, {3, 0}: true, {0, 0}: true, {0, 2}: true}
+		for _, sn := range seedNeedles {
+			slotSet[sn.s] = true
+		}
+		for _, v := range []uint64{0, 3} {
+			slotSet[slot{v, uint64(pn.Id)}] = true
+			slotSet[slot{v, uint64(un.Id)}] = true
+			for _, t := range rq.toks {
+				if _, k, _, ok := claimDen(t.f.fid); ok {
+					slotSet[slot{v, k}] = true
+				}
+			}
+		}
+		var slots []slot
+		for sl := range slotSet {
+			slots = append(slots, sl)
+		}
+		sort.Slice(slots, func(a, b int) bool {
+			if slots[a].vol != slots[b].vol {
+				return slots[a].vol < slots[b].vol
+			}
+			return slots[a].id < slots[b].id
+		})
 
 		target2 := path
 		if len(rq.q) > 0 {
@@ -264,11 +344,19 @@ func main() {
 		if rq.auth != "" {
 			req.Header.Set("Authorization", rq.auth)
 		}
+		if rq.auth2 != "" {
+			req.Header.Add("Authorization", rq.auth2)
+		}
 		vs := w.server(c)
-		before := w.snapshot()
+		before := map[slot]nstate{}
+		for _, sl := range slots {
+			before[sl] = w.probe(sl, nil)
+		}
+		snap0, snap3 := w.snapshot(0), w.snapshot(3)
 		rec := httptest.NewRecorder()
 		status := 0
 		var raw []byte
+		etag := ""
 		func() {
 			defer func() {
 				if recover() != nil {
@@ -283,11 +371,29 @@ func main() {
 			res := rec.Result()
 			raw, _ = io.ReadAll(res.Body)
 			status = res.StatusCode
+			etag = res.Header.Get("ETag")
 		}()
-		changed := w.snapshot() != before
-		leak := bytes.Contains(raw, dataA) || bytes.Contains(raw, dataB)
-		if method == "HEAD" && status == 200 {
-			leak = true
+		after := map[slot]nstate{}
+		for _, sl := range slots {
+			after[sl] = w.probe(sl, payload)
+		}
+		volsChanged := 0
+		if w.snapshot(0) != snap0 {
+			volsChanged++
+		}
+		if w.snapshot(3) != snap3 {
+			volsChanged++
+		}
+		// which needle the response discloses: its bytes, or (GET/HEAD 200) its ETag
+		var disclosed []string
+		for _, sl := range slots {
+			b := before[sl]
+			if !b.live {
+				continue
+			}
+			if bytes.Contains(raw, b.data) || ((method == "GET" || method == "HEAD") && status == 200 && etag == "\""+b.etag+"\"") {
+				disclosed = append(disclosed, hx.Pair(hx.N(sl.vol), hx.N(sl.id)))
+			}
 		}
 
 		// every distinct token string is bound once (let tk_j := "..." in ...): Coq parses
@@ -318,23 +424,28 @@ func main() {
 			lets = append(lets, "let "+nm+" := "+hx.Str(t.s)+" in ")
 			presented = append(presented, nm)
 			nt := false
-			if parts := strings.SplitN(t.f.fid, ",", 2); len(parts) == 2 {
-				if cb, ok := baseOf(parts[0], parts[1]); ok && reqBaseOK {
-					nt = cb == reqBase
-				} else {
-					nt = t.f.fid == vid+","+addrBase
-				}
+			if dv, dk, dc, ok := claimDen(t.f.fid); ok && addr != nil {
+				nt = dv == uint64(volId) && dc == uint32(addr.Cookie) &&
+					(dk == uint64(addr.Id) || (hasSuffix && dk <= uint64(addr.Id)))
 			}
 			tab = append(tab, hx.Pair(nm, coqTok(t.f, nt)))
 		}
+		ividTxt := "None"
+		if vidErr == nil {
+			ividTxt = "(Some " + hx.N(uint64(volId)) + ")"
+		}
+		iufid := "None"
+		if ufidOK {
+			iufid = "(Some " + coqSt(un, ufidErr) + ")"
+		}
 		term := fmt.Sprintf("%s{| c_cfg := {| write_key := %s; read_key := %s; wl_active := %s |}; "+
-			"c_rq := {| rq_public := %s; rq_method := %s; rq_query_jwt := %s; rq_auth := %s; rq_path := %s; rq_vid_ok := %s; rq_fid_ok := %s; rq_upfid_ok := %s; rq_same_needle := %s; rq_wl_pass := %s |}; "+
-			"c_tab := %s; c_presented := %s; c_target := %s; i_status := %s; i_changed := %s; i_leak := %s |}",
+			"c_rq := {| rq_public := %s; rq_method := %s; rq_query_jwt := %s; rq_auth := %s; rq_path := %s; rq_wl_pass := %s |}; "+
+			"c_tab := %s; c_presented := %s; c_world := {| w_vols := [0%%N; 3%%N]; w_live := %s |}; "+
+			"i_status := %s; i_after := %s; i_disclosed := %s; i_vols_changed := %d; i_vid := %s; i_fid := %s; i_ufid := %s |}",
 			strings.Join(lets, ""), hx.Str(c.write), hx.Str(c.read), hx.Bool(c.wl != 0),
-			hx.Bool(rq.public), method, ref(req.URL.Query().Get("jwt")), ref(rq.auth), hx.Str(path), hx.Bool(vidErr == nil), hx.Bool(fidErr == nil), hx.Bool(ufidErr == nil),
-			// the comparison the repaired PostHandler makes, from the real needle parser
-			hx.Bool(fidErr == nil && ufidErr == nil && pn.Id == un.Id && pn.Cookie == un.Cookie), hx.Bool(c.wl == 1),
-			hx.List(tab), hx.List(presented), target, hx.N(uint64(status)), hx.Bool(changed), hx.Bool(leak))
+			hx.Bool(rq.public), method, ref(req.URL.Query().Get("jwt")), ref(req.Header.Get("Authorization")), hx.Str(path), hx.Bool(c.wl == 1),
+			hx.List(tab), hx.List(presented), coqLive(slots, before),
+			hx.N(uint64(status)), coqLive(slots, after), hx.List(disclosed), volsChanged, ividTxt, coqSt(pn, fidErr), iufid)
 		port := "private"
 		if rq.public {
 			port = "public"
@@ -355,8 +466,14 @@ func main() {
 		out.Count("config:"+map[bool]string{true: "w", false: "-"}[c.write != ""]+map[bool]string{true: "r", false: "-"}[c.read != ""], 1)
 		for _, k := range kinds {
 			out.Count("token:"+strings.SplitN(k, "+", 2)[0], 1)
+			if kk := strings.SplitN(k, "+", 2); len(kk) == 2 {
+				out.Count("claim:"+kk[1], 1)
+			}
 		}
-		if changed {
+		if len(disclosed) > 0 {
+			out.Count("disclosed", 1)
+		}
+		if volsChanged > 0 {
 			out.Count("store-changed", 1)
 			w.close()
 			w = newWorld()
@@ -373,16 +490,37 @@ func main() {
 			toks: []tk{{s, f, "valid+claim-exact"}}, q: q, carrier: "query"})
 	}
 
+	// ---- cases 1, 2: the witnesses of finding 0 (seed independent): DeleteHandler ignores the parse
+	// errors; "x3" becomes volume 0 and needle 1 of volume 0 is deleted under a claim that denotes no
+	// file; an unparsable file id reaches the store as needle 0 and is answered 404 from there ----
+	for _, wp := range []struct{ path, claim string }{{"/x3,01637037d6", "x3,01637037d6"}, {"/3,zz637037d6", "3,zz637037d6"}} {
+		s, f := mkHS(jwt.SigningMethodHS256, writeKey, wp.claim, now+1000, 0, 0)
+		q := url.Values{}
+		q.Set("jwt", s)
+		run(request{c: cfg{write: writeKey}, method: "DELETE", path: wp.path, tkind: "witness-delete-unparsed",
+			toks: []tk{{s, f, "valid+claim-exact"}}, q: q, carrier: "query"})
+	}
+	// ---- case 3: a token for needle 1 and the file id of another needle whose text extends it ----
+	{
+		s, f := mkHS(jwt.SigningMethodHS256, readKey, "3,01637037d6", now+1000, 0, 0)
+		q := url.Values{}
+		q.Set("jwt", s)
+		run(request{c: cfg{read: readKey}, method: "GET", path: "/3,01637037d6ab", tkind: "extended-fid",
+			toks: []tk{{s, f, "valid+claim-canonical"}}, q: q, carrier: "query"})
+	}
+
 	for out.Len() < out.N {
 		r := root.Fork()
 		rq := request{q: url.Values{}, carrier: "none"}
 		// ---- configuration ----
-		switch r.Intn(8) {
+		switch r.Intn(9) {
 		case 0:
 		case 1, 2:
 			rq.c.write = writeKey
 		case 3, 4:
 			rq.c.read = readKey
+		case 5:
+			rq.c.write, rq.c.read = writeKey, writeKey // one key for both classes
 		default:
 			rq.c.write, rq.c.read = writeKey, readKey
 		}
@@ -396,7 +534,25 @@ func main() {
 		// ---- target and URL ----
 		vidTxt, fidTxt := "3", "01637037d6"
 		rq.tkind = "exists"
-		switch k := r.Intn(20); {
+		switch k := r.Intn(26); {
+		case k == 20:
+			fidTxt = "05637037d6" // needle 5 is stored with another cookie
+			rq.tkind = "cookie-mismatch"
+		case k == 21:
+			fidTxt = "0511223344"
+			rq.tkind = "exists5"
+		case k == 22:
+			fidTxt = "01637037d6ab" // key 0x163, cookie 0x7037d6ab: the text extends needle 1's
+			rq.tkind = "extended-fid"
+		case k == 23:
+			vidTxt = "0"
+			rq.tkind = "volume0"
+		case k == 24:
+			fidTxt = r.PickStr([]string{"01637037d6_", "01637037d6_18446744073709551615", "01637037d6_99999999999999999999", "0163_7037d6", "01637037d6_1_1", "01637037D6"})
+			rq.tkind = "odd-suffix"
+		case k == 25:
+			vidTxt = r.PickStr([]string{"4294967299", "+3", "3x", "0x3"})
+			rq.tkind = "bad-vid"
 		case k < 9:
 		case k < 12:
 			fidTxt += "_1"
@@ -447,6 +603,9 @@ func main() {
 			rq.tkind = "vid-only"
 		}
 		vid, fid, _ := parsePath(rq.path)
+		if vid+fid == "" {
+			vid, fid = vidTxt, fidTxt
+		}
 		fidBase := fid
 		if j := strings.LastIndex(fid, "_"); j > 0 {
 			fidBase = fid[:j]
@@ -468,7 +627,20 @@ func main() {
 		}
 		exact := vid + "," + fidBase
 		genClaim := func() (string, string) {
-			switch k := r.Intn(20); {
+			switch k := r.Intn(24); {
+			case k == 20:
+				// same volume and key, another cookie
+				if len(fidBase) > 8 {
+					return vid + "," + fidBase[:len(fidBase)-8] + "aabbccdd", "claim-other-cookie"
+				}
+				return "3,01aabbccdd", "claim-other-cookie"
+			case k == 21:
+				// a proper prefix of the exact text
+				return exact[:len(exact)-len(exact)/4], "claim-prefix"
+			case k == 22:
+				return exact + "ab", "claim-extended"
+			case k == 23:
+				return strings.ToUpper(exact), "claim-uppercase"
 			case k < 11:
 				return exact, "claim-exact"
 			case k < 13:
@@ -490,7 +662,29 @@ func main() {
 		genToken := func() tk {
 			claim, ck := genClaim()
 			key := signKeyFor()
-			switch k := r.Intn(40); {
+			switch k := r.Intn(48); {
+			case k == 40:
+				s, f := mkHS(jwt.SigningMethodHS256, key, claim, now, now, now) // all three exactly at the instant
+				return tk{s, f, "at-now+" + ck}
+			case k == 41:
+				s, f := mkHS(jwt.SigningMethodHS256, key, claim, now-1, 0, 0)
+				return tk{s, f, "expired-1s+" + ck}
+			case k == 42:
+				s, f := mkHS(jwt.SigningMethodHS256, key, claim, now+1, now+1, 0)
+				return tk{s, f, "nbf+1s+" + ck}
+			case k == 43:
+				s, f := mkHS(jwt.SigningMethodHS256, key, claim, now+1, 0, now+1)
+				return tk{s, f, "iat+1s+" + ck}
+			case k == 44 || k == 45:
+				// header altered after signing: right key, but the signature covers another header
+				s, f := mkHS(jwt.SigningMethodHS256, key, claim, now+1000, 0, 0)
+				parts := strings.Split(s, ".")
+				parts[0] = b64(map[string]string{"alg": r.PickStr([]string{"HS384", "HS512"}), "typ": "JWT"})
+				f.signedWith = ""
+				return tk{strings.Join(parts, "."), f, "alg-altered+" + ck}
+			case k == 46 || k == 47:
+				s, f := mkHS(jwt.SigningMethodHS256, key, claim, now+1, 0, 0)
+				return tk{s, f, "valid-1s+" + ck}
 			case k < 12:
 				s, f := mkHS(jwt.SigningMethodHS256, key, claim, now+1000, 0, 0)
 				return tk{s, f, "valid+" + ck}
@@ -576,7 +770,21 @@ func main() {
 				return "Token " + s
 			}
 		}
-		switch k := r.Intn(20); {
+		switch k := r.Intn(24); {
+		case k == 20 || k == 21:
+			// ?jwt=a&jwt=b : the first one counts
+			t1, t2 := genToken(), genToken()
+			rq.toks = append(rq.toks, t1, t2)
+			rq.q.Add("jwt", t1.s)
+			rq.q.Add("jwt", t2.s)
+			rq.carrier = "query-twice"
+		case k == 22 || k == 23:
+			// two Authorization headers: the first one counts
+			t1, t2 := genToken(), genToken()
+			rq.toks = append(rq.toks, t1, t2)
+			rq.auth = wrap(t1.s)
+			rq.auth2 = "Bearer " + t2.s
+			rq.carrier = "header-twice"
 		case k < 2:
 			// nothing presented
 		case k < 9:
